@@ -1002,3 +1002,210 @@ func emptyInputReaches(fn *ssa.Function, b *ssa.BasicBlock) bool {
 	}
 	return true
 }
+
+// C19.intersect-universal: Intersection / Intersects decide, for a key k of the first set, "k is in EVERY other set". The
+// positive effect (out[k] = …, return true) must not be reachable in the same outer iteration after a membership test of k
+// failed (typestate over the loop nest; a boolean `include` flag is followed through its constant assignments by the engine's
+// flag threading), and a library quantifier used instead of the loop must be xslices.All, not xslices.Any.
+func ruleIntersectUniversal(c *Ctx, r *R) {
+	for _, n := range []string{"Intersection", "Intersects"} {
+		fn := c.fn("xmaps." + n)
+		if fn == nil {
+			r.undecided("xmaps."+n+"|missing", token.NoPos, "anchor not found")
+			continue
+		}
+		isPositive := func(in ssa.Instruction) bool {
+			switch x := in.(type) {
+			case *ssa.MapUpdate:
+				return true
+			case *ssa.Return:
+				if len(x.Results) == 1 {
+					if k, ok := x.Results[0].(*ssa.Const); ok && k.Value != nil && k.Value.String() == "true" {
+						return true
+					}
+				}
+			}
+			return false
+		}
+		lookups, quantAll, quantAny := 0, 0, 0
+		for _, g := range withAnon(fn) {
+			instrs(g, func(_ *ssa.BasicBlock, _ int, in ssa.Instruction) {
+				if lk, ok := in.(*ssa.Lookup); ok && lk.CommaOk {
+					lookups++
+				}
+				if call, ok := in.(*ssa.Call); ok {
+					if cal := calleeOf(&call.Call); cal != nil && origin(cal).Pkg != nil && strings.HasSuffix(origin(cal).Pkg.Pkg.Path(), "/xslices") {
+						switch origin(cal).Name() {
+						case "All":
+							quantAll++
+						case "Any":
+							quantAny++
+						}
+					}
+				}
+			})
+		}
+		pf := &PF{N: 2}
+		pf.Instr = func(f *ssa.Function, in ssa.Instruction, q int) (StateSet, bool) {
+			if _, ok := in.(*ssa.Next); ok {
+				return ss(0), true // next key of the first set: a fresh decision
+			}
+			return 0, false
+		}
+		pf.Edge = func(f *ssa.Function, g guard, q int) (StateSet, bool) {
+			v, val := g.boolVal()
+			if ex, ok := v.(*ssa.Extract); ok && ex.Index == 1 {
+				if lk, ok := ex.Tuple.(*ssa.Lookup); ok && lk.CommaOk && !val {
+					return ss(1), true
+				}
+			}
+			return 0, false
+		}
+		bad := false
+		var badPos token.Pos
+		pf.Visit = func(f *ssa.Function, in ssa.Instruction, before StateSet) {
+			if isPositive(in) && before.has(1) {
+				bad = true
+				badPos = posOf(in)
+			}
+		}
+		pf.Exits(fn, ss(0))
+		switch {
+		case quantAny > 0:
+			r.violated("xmaps."+n+"|universal", fn.Pos(), n+" decides membership in the other sets with xslices.Any: an element of the intersection must be in ALL of them (for three or more sets that overlap only pairwise the answer is wrong)")
+		case bad:
+			r.violated("xmaps."+n+"|universal", badPos, n+" keeps a key although a membership test in one of the other sets failed in the same iteration: an element of the intersection must be in ALL sets")
+		case lookups == 0 && quantAll == 0:
+			r.undecided("xmaps."+n+"|universal", fn.Pos(), "no membership test of the other sets found")
+		default:
+			r.discharged("xmaps."+n+"|universal", fn.Pos(), "a key is kept only when no membership test failed")
+		}
+	}
+}
+
+// C19.heap-nonempty: library code that uses a heap (xsort.Merge's iterator, xsort.MinK) calls Pop / Peek - which panic on an
+// empty heap - only with evidence that the heap is non-empty: a dominating Len() > 0 / != 0 / >= 1 (or Len() > x with x a
+// non-negative constant) on the same heap, a Push on the same heap earlier in the same block, or a count-down drain loop whose
+// counter starts at len(make([]T, h.Len())) - 1. `Len() >= k` or `!(Len() < k)` with an arbitrary k is NOT evidence (k <= 0).
+func ruleHeapNonEmpty(c *Ctx, r *R) {
+	n := 0
+	isHeapMethod := func(call *ssa.Call, names ...string) bool {
+		cal := calleeOf(&call.Call)
+		if cal == nil {
+			return false
+		}
+		o := origin(cal)
+		if o.Signature.Recv() == nil || o.Pkg == nil {
+			return false
+		}
+		pp := o.Pkg.Pkg.Path()
+		if !strings.HasSuffix(pp, "internal/heap") && !strings.HasSuffix(pp, "container/xheap") {
+			return false
+		}
+		for _, nm := range names {
+			if o.Name() == nm {
+				return true
+			}
+		}
+		return false
+	}
+	sameHeap := func(a, b ssa.Value) bool {
+		return valueProv(a, provEnv{}).String() == valueProv(b, provEnv{}).String()
+	}
+	for _, fn := range c.funcsOfPkg("xsort") {
+		if fn.Blocks == nil {
+			continue
+		}
+		name := c.nameOf(fn)
+		instrs(fn, func(b *ssa.BasicBlock, i int, in ssa.Instruction) {
+			call, ok := in.(*ssa.Call)
+			if !ok || !isHeapMethod(call, "Pop", "Peek") || len(call.Call.Args) == 0 {
+				return
+			}
+			n++
+			h := call.Call.Args[0]
+			isLen := func(v ssa.Value) bool {
+				lc, ok := resolveVal(v).(*ssa.Call)
+				return ok && isHeapMethod(lc, "Len") && len(lc.Call.Args) > 0 && sameHeap(lc.Call.Args[0], h)
+			}
+			evidence := ""
+			for _, g := range guardsOf(b) {
+				cf, ok := g.asCmp()
+				if !ok {
+					continue
+				}
+				x, y, op := cf.x, cf.y, cf.op
+				if isLen(y) {
+					x, y, op = y, x, flip(op)
+				}
+				if isLen(x) {
+					if k, ok := resolveVal(y).(*ssa.Const); ok && k.Value != nil {
+						kv := k.Int64()
+						if (op == token.GTR && kv >= 0) || (op == token.GEQ && kv >= 1) || (op == token.NEQ && kv == 0) {
+							evidence = "Len() test"
+						}
+					}
+					continue
+				}
+				// the drain loop: i >= 0 with i counting down from len(make([]T, h.Len())) - 1
+				if phi, ok := x.(*ssa.Phi); ok && op == token.GEQ && isConstInt(y, 0) {
+					initOK, stepOK := false, false
+					for _, e := range phi.Edges {
+						if bin, ok := e.(*ssa.BinOp); ok && bin.Op == token.SUB && isConstInt(bin.Y, 1) {
+							if bin.X == ssa.Value(phi) {
+								stepOK = true
+								continue
+							}
+							if lc, ok := resolveVal(bin.X).(*ssa.Call); ok {
+								if bi, ok := lc.Call.Value.(*ssa.Builtin); ok && bi.Name() == "len" {
+									if ms, ok := resolveVal(lc.Call.Args[0]).(*ssa.MakeSlice); ok && isLen(ms.Len) {
+										initOK = true
+									}
+								}
+							}
+						}
+					}
+					if initOK && stepOK && len(phi.Edges) == 2 {
+						evidence = "count-down from Len()"
+					}
+				}
+			}
+			// a Push on the same heap earlier in this block, no Pop in between
+			for j := i - 1; j >= 0 && evidence == ""; j-- {
+				if pc, ok := b.Instrs[j].(*ssa.Call); ok && len(pc.Call.Args) > 0 {
+					if isHeapMethod(pc, "Pop") && sameHeap(pc.Call.Args[0], h) {
+						break
+					}
+					if isHeapMethod(pc, "Push") && sameHeap(pc.Call.Args[0], h) {
+						evidence = "Push just before"
+					}
+				}
+			}
+			// … or in a dominating block with the Len() > k test in between (MinK: push, then `if Len() > k { Pop }`)
+			if evidence == "" {
+				for d := b.Idom(); d != nil && evidence == ""; d = d.Idom() {
+					for j := len(d.Instrs) - 1; j >= 0; j-- {
+						if pc, ok := d.Instrs[j].(*ssa.Call); ok && len(pc.Call.Args) > 0 {
+							if isHeapMethod(pc, "Pop") && sameHeap(pc.Call.Args[0], h) {
+								d = nil
+								break
+							}
+							if isHeapMethod(pc, "Push") && sameHeap(pc.Call.Args[0], h) {
+								// nothing that can pop lies between: the only blocks between d and b are b's dominators
+								evidence = "Push on every path before"
+								break
+							}
+						}
+					}
+					if d == nil {
+						break
+					}
+				}
+			}
+			r.ok(evidence != "", name+"|"+origin(calleeOf(&call.Call)).Name()+"#"+itoa(n), call.Pos(), "Pop/Peek on a heap that may be empty here (no Len() > 0 test, no Push before it, no counted drain): it panics - e.g. MinK with k <= 0 must return an empty result")
+		})
+	}
+	if n == 0 {
+		r.undecided("xsort|heap-uses", token.NoPos, "no Pop/Peek on a heap found in xsort")
+	}
+}
